@@ -553,25 +553,29 @@ func commentDescription(src protoreflect.Descriptor) string {
 }
 
 func buildComment(sourceLocation protoreflect.SourceLocation, fallback string) string {
-	allComments := make([]string, 0)
-	if sourceLocation.LeadingComments != "" {
-		allComments = append(allComments, strings.Split(sourceLocation.LeadingComments, "\n")...)
-	}
-	if sourceLocation.TrailingComments != "" {
-		allComments = append(allComments, strings.Split(sourceLocation.TrailingComments, "\n")...)
-	}
-
-	// Trim leading whitespace
-	commentsOut := make([]string, 0, len(allComments))
-	for _, comment := range allComments {
-		comment = strings.TrimSpace(comment)
-		if comment == "" {
-			continue
+	commentsOut := make([]string, 0)
+	for _, part := range []string{sourceLocation.LeadingComments, sourceLocation.TrailingComments} {
+		// Trim leading whitespace of each line. An empty line between two
+		// lines of one comment is a paragraph break and is kept, empty lines
+		// at either end are not.
+		pendingBreak := false
+		partLines := 0
+		for _, comment := range strings.Split(part, "\n") {
+			comment = strings.TrimSpace(comment)
+			if comment == "" {
+				pendingBreak = partLines > 0
+				continue
+			}
+			if strings.HasPrefix(comment, "#") {
+				continue
+			}
+			if pendingBreak {
+				commentsOut = append(commentsOut, "")
+				pendingBreak = false
+			}
+			commentsOut = append(commentsOut, comment)
+			partLines++
 		}
-		if strings.HasPrefix(comment, "#") {
-			continue
-		}
-		commentsOut = append(commentsOut, comment)
 	}
 
 	if len(commentsOut) <= 0 {
